@@ -41,6 +41,7 @@ PROBES = [
     'create_on_existing_refused',
     'overwrite_allowed',
     'reopen',
+    'append_through_second_handle',
     'logtofile_killed_in_append',
     'logtofile_killed_at_event',
     'logtofile_resumed',
@@ -166,12 +167,25 @@ def generate(seed, tier, index):
     nops = r.randint(2, 12)
     live = True
     seedc = 0
+    multi = r.random() < 0.3  # several handles open on the one file, used in an interleaved fashion
+    handles = [0]
     for _ in range(nops):
         c = r.random()
         seedc += 1
         if not live:
             ops.append(['reopen', r.choice(['generic', 'special'])])
             live = True
+            handles = [0]
+            continue
+        if multi and r.random() < 0.45:
+            hid = r.randint(0, 2)
+            if hid not in handles:
+                ops.append(['reopen', r.choice(['generic', 'special']), hid])
+                handles.append(hid)
+            else:
+                ops.append(['append', _rand_time(r), seedc + index * 100, hid])
+                if r.random() < 0.5:
+                    ops.append(['read', 'live', r.choice(handles)])
             continue
         if c < p_crash:
             rl = _reclen(hd)
@@ -188,6 +202,7 @@ def generate(seed, tier, index):
             ops.append(['create', hd2, allow])
             if allow:
                 hd = hd2
+                handles = [0]
         elif c < p_crash + p_reopen + 0.3:
             ops.append(['read', r.choice(['live', 'fresh'])])
         else:
@@ -506,9 +521,6 @@ def extra(tier, seed, workers):
                 try:
                     nB = BlockDecomposition(nProcs, grid, algo, 0).nBlocks
                 except Exception:  # noqa: BLE001 - construction may refuse a combination
-                    continue
-                if int(np.prod(nB)) != nProcs or any(b > g for b, g in zip(nB, grid)):
-                    # more blocks than points in a direction: not a decomposition a user can run; skip, counted
                     continue
                 cover = np.zeros(grid, dtype=np.int32)
                 ok = True
